@@ -1181,3 +1181,263 @@ def np_recarray(engine, run, a, k):
     if not isinstance(dt, list):
         raise Undecided("recarray with non-literal dtype")
     return SRecArray(dt)
+
+
+# ---------------------------------------------------------------------------
+# (N, d) arrays seen at one Skolem row: SStack;  column / row broadcasting helpers
+
+def _stack_binop(run, op, a, b, reflected):
+    """a is SStack/SCol/SRowB; b anything"""
+    def comps(x, n):
+        if isinstance(x, SStack):
+            return [c.v if isinstance(c, SCell) else c for c in x.cells]
+        if isinstance(x, SCol):
+            return [x.cell.v] * n
+        if isinstance(x, SRow):
+            return list(x.arr.elems)
+        if isinstance(x, SCell):
+            raise Undecided("(N,) array broadcast against (N,d) array")
+        return [x] * n
+    n = None
+    for x in (a, b):
+        if isinstance(x, SStack):
+            n = len(x.cells)
+        elif isinstance(x, SRow) and n is None:
+            n = len(x.arr)
+    if n is None:
+        raise Undecided("column with column")
+    ca, cb = comps(a, n), comps(b, n)
+    if len(ca) != len(cb):
+        run.oblige("operands broadcast", False, kind="implicit")
+        raise run.PathEnd()
+    if reflected:
+        ca, cb = cb, ca
+    space = next((x.space for x in (a, b) if isinstance(x, (SStack,)) and x.space), None) or \
+        next((x.cell.space for x in (a, b) if isinstance(x, SCol)), "rows")
+    return SStack([SCell(ops.binop(run, op, x, y), space) for x, y in zip(ca, cb)], space)
+
+
+class SStack:   # noqa: F811  (extends the earlier placeholder)
+    """(N, d) array: at the Skolem row its value is the vector of the d cells."""
+
+    def __init__(self, cells, space=None):
+        self.cells = list(cells)
+        self.space = space or next((c.space for c in cells if isinstance(c, SCell)), "rows")
+
+    def sym_binop(self, run, op, other, reflected):
+        return _stack_binop(run, op, self, other, reflected)
+
+    def sym_getitem(self, run, idx):
+        if isinstance(idx, tuple) and len(idx) == 2 and (idx[0] is Ellipsis or idx[0] == slice(None)):
+            j = const_of(idx[1])
+            if j is None:
+                raise Undecided("symbolic component index")
+            return self.cells[int(j)]
+        raise Undecided(f"index {idx!r} on (N,d) array")
+
+    def sym_setitem(self, run, idx, v):
+        if isinstance(idx, tuple) and len(idx) == 2 and (idx[0] is Ellipsis or idx[0] == slice(None)):
+            j = int(const_of(idx[1]))
+            self.cells[j] = v if isinstance(v, SCell) else SCell(v, self.space)
+            return
+        raise Undecided(f"index store {idx!r} on (N,d) array")
+
+    def sym_getattr(self, run, attr):
+        if attr == "shape":
+            return SShape(self.space, dims=(z3.Int(f"rows_{self.space}"), len(self.cells)))
+        if attr == "ndim":
+            return 2
+        return _MISSING
+
+
+class SCol:
+    """`cell[:, None]`: an (N,1) column."""
+
+    def __init__(self, cell):
+        self.cell = cell
+
+    def sym_binop(self, run, op, other, reflected):
+        return _stack_binop(run, op, self, other, reflected)
+
+
+def _row_binop(self, run, op, other, reflected):
+    if isinstance(other, (SStack, SCol)):
+        return _stack_binop(run, op, self, other, reflected)
+    return NotImplemented
+
+
+SRow.sym_binop = _row_binop
+
+_old_getitem = getitem
+
+
+def getitem(engine, run, obj, idx):   # noqa: F811
+    if isinstance(obj, SCell) and isinstance(idx, tuple) and len(idx) == 2 and idx[0] == slice(None) and idx[1] is None:
+        return SCol(obj)
+    if isinstance(obj, SShape) and obj.dims is not None:
+        c = const_of(idx)
+        if c is not None:
+            return obj.dims[int(c)]
+    if isinstance(obj, SSeq) and isinstance(idx, slice):
+        st = 1 if idx.step is None else const_of(idx.step)
+        a0 = 0 if idx.start is None else const_of(idx.start)
+        if idx.stop is None and st is not None and a0 is not None and st >= 1 and a0 >= 0:
+            L = to_z3(obj.length)
+            st, a0 = int(st), int(a0)
+            n = z3.If(L > a0, (L - a0 + st - 1) / st, z3.IntVal(0))
+            return SSeq(n, lambda i: obj.at(a0 + st * to_z3(i)), f"{obj.name}[{a0}::{st}]", obj.kind)
+    return _old_getitem(engine, run, obj, idx)
+
+
+@external("numpy.empty")
+def np_empty(engine, run, a, k):
+    shp = a[0]
+    if isinstance(shp, SShape) and shp.dims is not None:
+        n = const_of(shp.dims[-1])
+        return SStack([SCell(run.fresh_real("empty"), shp.space) for _ in range(int(n))], shp.space)
+    return _full(run, shp, run.fresh_real("empty"))
+
+
+class _NpC:
+    def sym_getitem(self, run, idx):
+        items = idx if isinstance(idx, tuple) else (idx,)
+        if all(isinstance(x, SCell) for x in items):
+            return SStack(list(items))
+        raise Undecided("np.c_ of non cell-wise arrays")
+
+
+class _NpR:
+    def sym_getitem(self, run, idx):
+        items = idx if isinstance(idx, tuple) else (idx,)
+        out = []
+        for x in items:
+            if isinstance(x, SArr):
+                out.extend(x.elems)
+            elif is_num(x) or isinstance(x, (SInf,)):
+                out.append(x)
+            elif hasattr(x, "sym_r_concat"):
+                return x.sym_r_concat(run, items)
+            else:
+                raise Undecided(f"np.r_ of {type(x).__name__}")
+        return SArr(out)
+
+
+_old_eav = external_attr_value
+
+
+def external_attr_value(name):   # noqa: F811
+    if name == "numpy.c_":
+        return _NpC()
+    if name == "numpy.r_":
+        return _NpR()
+    return _old_eav(name)
+
+
+# sums / integrals are kept as named ghost terms: the contract states the integrand point-wise
+class SReduction:
+    def __init__(self, kind, sym, integrand, space, extra=None):
+        self.kind = kind
+        self.sym = sym
+        self.integrand = integrand
+        self.space = space
+        self.extra = extra or {}
+
+
+def _reduce(run, kind, integrand, space, extra=None):
+    s = run.fresh_real(kind)
+    run.ghost.setdefault("reductions", []).append(SReduction(kind, s, integrand, space, extra))
+    # monotonicity of sums/integrals: if the integrand is non-negative at the *generic* index (valid under the
+    # current assumptions, in which the Skolem index is constrained only by its range), the result is >= 0
+    try:
+        iv = to_real(integrand.v if isinstance(integrand, SCell) else integrand)
+        chk = z3.Solver()
+        chk.set("timeout", 2000)
+        for a in run.assumptions():
+            chk.add(a)
+        chk.add(iv < 0)
+        if chk.check() == z3.unsat:
+            run.define(s >= 0, "a sum/integral of point-wise non-negative terms is non-negative")
+    except Undecided:
+        pass
+    return s
+
+
+_old_native_attr = native_attr
+
+
+def native_attr(engine, run, obj, attr):   # noqa: F811
+    if isinstance(obj, SCell) and attr == "sum":
+        return SNative(lambda run, a, k: _reduce(run, "sum", obj.v, obj.space), "ndarray.sum")
+    if isinstance(obj, SCell) and attr == "ndim":
+        n = z3.Int(f"ndim_{obj.space}")
+        run.define(n >= 1, "cell-wise arrays have ndim >= 1")
+        return n
+    return _old_native_attr(engine, run, obj, attr)
+
+
+_old_np_sum = EXTERNALS["numpy.sum"]
+
+
+@external("numpy.sum")
+def np_sum2(engine, run, a, k):
+    v = a[0]
+    if isinstance(v, SSeq):
+        j = run.fresh_int("j")
+        run.assume(z3.And(j >= 0, j < to_z3(v.length)))
+        return _reduce(run, "sum", v.at(j), v.name, dict(index=j, length=v.length))
+    if isinstance(v, SCell):
+        return _reduce(run, "sum", v.v, v.space)
+    return _old_np_sum(engine, run, a, k)
+
+
+@external("numpy.linspace")
+def np_linspace(engine, run, a, k):
+    lo, hi, num = a[0], a[1], (a[2] if len(a) > 2 else k.get("num", 50))
+    endpoint = k.get("endpoint", True)
+    n = const_of(num)
+    if n is None:
+        # symbolic count: only the cell-wise view is provided
+        nz = to_z3(num)
+    else:
+        nz = z3.IntVal(int(n))
+    idx = run.fresh_int("lin_idx")
+    run.assume(z3.And(idx >= 0, idx < nz))
+    div = nz - 1 if endpoint else nz
+    step = ops.real_div(run, ops.binop(run, ast.Sub(), hi, lo), z3.ToReal(div), "linspace step")
+    val = to_real(lo) + z3.ToReal(idx) * to_real(step)
+    cell = SCell(val, f"linspace!{next(run.counter)}")
+    run.ghost.setdefault("linspace", []).append(dict(cell=cell, lo=lo, hi=hi, num=num, endpoint=endpoint, index=idx, step=step))
+    if k.get("retstep"):
+        return (cell, step)
+    return cell
+
+
+@external("pde.tools.misc.number_array")
+def pde_number_array(engine, run, a, k):
+    """Assumed: number_array(x) is np.array(x, dtype=float-like): arrays unchanged, scalars become 0-d arrays."""
+    v = a[0]
+    if isinstance(v, (SCell, SStack)):
+        return v
+    if isinstance(v, SArr):
+        return v
+    if is_num(v):
+        return SArr([to_real(v) if is_z3(v) else Fraction(v)], 0)
+    if isinstance(v, (list, tuple)) and all(is_num(x) for x in v):
+        return SArr(list(v))
+    raise Undecided(f"number_array({type(v).__name__})")
+
+
+@external("scipy.integrate.dblquad")
+def sp_dblquad(engine, run, a, k):
+    """Assumed: dblquad(f, a, b, g, h)[0] = ∫_a^b dx ∫_{g(x)}^{h(x)} f(y, x) dy  (f's FIRST argument is the
+    inner variable).  The integrand is evaluated at a Skolem point inside the domain."""
+    f, lo, hi, g, h = a[:5]
+    x = run.fresh_real("outer")
+    run.assume(z3.And(x >= to_real(lo), x <= to_real(hi)))
+    glo = engine.invoke(run, g, [x], {}) if not is_num(g) else g
+    ghi = engine.invoke(run, h, [x], {}) if not is_num(h) else h
+    y = run.fresh_real("inner")
+    run.assume(z3.And(y >= to_real(glo), y <= to_real(ghi)))
+    val = engine.invoke(run, f, [y, x], {})
+    s = _reduce(run, "dblquad", val, "dblquad", dict(outer=x, inner=y, outer_lo=lo, outer_hi=hi, inner_lo=glo, inner_hi=ghi))
+    return (s, run.fresh_real("quad_err"))
